@@ -22,6 +22,7 @@ TRACE_FILES = ('pyglove/core/tuning/local_backend.py', 'pyglove/core/tuning/samp
                'pyglove/ext/evolution/base.py')
 OPS = ('done', 'skip', 'early', 'done_end')
 REWARD = (2, 3, 3, 1, 2, 3, 1, 2, 3, 1, 2, 3)
+UNBOUNDED = 99        # num_examples=None in the specification's configuration
 
 _pg = None
 _hooks = None
@@ -49,8 +50,8 @@ def load():
 @dataclasses.dataclass
 class RunConfig:
   nw: int
-  groups: Sequence[int]          # group of worker w (index w-1)
-  n: int                         # num_examples
+  groups: Sequence[Any]          # the group id worker w passes to pg.sample (None, int or str)
+  n: Optional[int]               # num_examples (0 is legal; None = unbounded)
   ops: Sequence[str]
   evo: bool
   serial_start: bool = False     # constructors run one after the other
@@ -58,10 +59,25 @@ class RunConfig:
   policy: str = 'random'
   seed: int = 0
   probe_p: float = 1.0
+  name_kind: str = 'unique'      # 'unique' (a fresh name), 'empty' (name=''), 'none' (name=None)
+
+  def group_codes(self) -> List[int]:
+    """The declared groups as the specification sees them: one code per distinct group id (Python
+    equality, i.e. 0 and '' and '0' are three groups), a code of its own for every worker that passes
+    None (per-thread default)."""
+    codes: Dict[Any, int] = {}
+    out = []
+    for w, g in enumerate(self.groups, 1):
+      if g is None:
+        out.append(100 + w)
+      else:
+        out.append(codes.setdefault((type(g).__name__, g), 10 + len(codes)))
+    return out
 
   def cf(self) -> dict:
-    return {'nw': self.nw, 'groups': list(self.groups), 'n': self.n, 'ops': sorted(self.ops),
-            'reward': list(REWARD), 'evo': bool(self.evo), 'warm': False}
+    return {'nw': self.nw, 'groups': self.group_codes(), 'n': UNBOUNDED if self.n is None else self.n,
+            'ops': sorted(self.ops), 'reward': list(REWARD), 'evo': bool(self.evo), 'warm': False,
+            'named': self.name_kind != 'none'}
 
 
 _INT_FIELDS = ('id', 'has', 'sid', 'sec', 'found', 'needed', 'active', 'latest', 'reuse', 'stop', 'n', 'pending',
@@ -112,22 +128,39 @@ class Recorder:
   def tracer(self, event: str, fields: dict):
     self.s.emit(event, fields)
 
-  def normalise(self, events: List[dict]) -> List[dict]:
-    """Spec vocabulary: study ids become the worker that created the study; groups become ints."""
+  def normalise(self, events: List[dict], group_strings: Dict[int, tuple], named: bool = True) -> List[dict]:
+    """Spec vocabulary: study ids become the worker that created the study; the group the backend
+    recorded (logged as str(group_id)) becomes the code of the declared group it stands for:
+    `group_strings[w] = (str of the group worker w must end up in, code)`; 999 = nobody's group."""
     owner: Dict[int, int] = {}
     out = []
+
+    def group_code(w, logged):
+      mine = group_strings.get(w)
+      if mine is not None and mine[0] == logged:
+        return mine[1]
+      for v, (txt, code) in sorted(group_strings.items()):
+        if txt == logged:
+          return code
+      return 999
     for ev in events:
       if ev['e'] == 'evo_proposed':
         continue
       e = {'w': ev['w'], 'e': ev['e'], 'opname': ev.get('opname', '')}
-      if ev['e'] == 'goc_store':
-        owner[ev['sid']] = ev['w']
+      if ev.get('sid'):
+        # a study belongs to the worker that mentions it first: the one that stored it under the name
+        # (goc_store) or, for name=None, the only worker that may ever see it
+        owner.setdefault(ev['sid'], ev['w'])
+      if ev['e'] == 'finish' and not named:
+        # a private study dies with its worker; CPython may hand its id() to the next private study
+        for k in [k for k, v in owner.items() if v == ev['w']]:
+          del owner[k]
       for k in _INT_FIELDS:
         v = ev.get(k, 0)
         if k == 'sid':
           v = owner.get(v, 0) if v else 0
         elif k == 'group':
-          v = int(str(v).lstrip('g') or 0) if v else 0
+          v = group_code(ev['w'], str(v)) if ev['e'] == 'append_trial' else 0
         e[k] = int(v)
       out.append(e)
     return out
@@ -186,7 +219,9 @@ class Session:
     self.pg, self.hooks = pg, hooks
     self.cfg = cfg
     _run_counter[0] += 1
-    self.name = f'c16-{_run_counter[0]}'
+    self.name = {'unique': f'c16-{_run_counter[0]}', 'empty': '', 'none': None}[cfg.name_kind]
+    self.label = f'c16-{_run_counter[0]}'
+    self.idents: Dict[int, int] = {}
     self.algorithm = make_algorithm(cfg.evo)
     self.space = pg.Dict(x=pg.oneof([1, 2, 3, 4, 5]))
     self.s = sched.Scheduler(lambda e, f: self.rec.classify(e, f), mode=cfg.mode, quiet=quiet,
@@ -201,9 +236,17 @@ class Session:
     if 'early' in cfg.ops:
       # one policy object per worker: the backend compares the policy's DNASpec by identity
       kwargs['early_stopping_policy'] = AlwaysStop.make()
-    for _, fb in pg.sample(self.space, self.algorithm, num_examples=cfg.n, name=self.name,
-                           group=f'g{cfg.groups[w - 1]}', **kwargs):
+    import threading  # pylint: disable=import-outside-toplevel
+    self.idents[w] = threading.get_ident()
+    # every worker passes its own (equal, not identical) name object
+    name = ''.join(list(self.name)) if self.name else self.name
+    mine = 0
+    for _, fb in pg.sample(self.space, self.algorithm, num_examples=cfg.n, name=name,
+                           group=cfg.groups[w - 1], **kwargs):
+      mine += 1
       op = self.forced_op.get(w) or self.rngs[w].choice(sorted(cfg.ops))
+      if cfg.n is None and mine >= 3 and 'done_end' in cfg.ops and not self.forced_op.get(w):
+        op = 'done_end'            # an unbounded loop is ended by the workers
       self.forced_op[w] = None
       self.s.emit('user_op', {'opname': op})
       reward = float(REWARD[fb.id - 1]) if 0 < fb.id <= len(REWARD) else 0.0
@@ -231,11 +274,16 @@ class Session:
     self.s.join()
     self.hooks.install(None)
     from pyglove.core.tuning import local_backend  # pylint: disable=import-outside-toplevel
-    local_backend._in_memory_results.pop(self.name, None)  # pylint: disable=protected-access
+    if self.name is not None:
+      local_backend._in_memory_results.pop(self.name, None)  # pylint: disable=protected-access
 
   # -------------------------------------------------------------- observation through the public API
   def observe_final(self) -> dict:
     pg = self.pg
+    if self.name is None:       # private studies: only the shared algorithm can be observed
+      alg = self.algorithm
+      return {'unnamed': True, 'nprop': int(alg.num_proposals), 'nfb': int(alg.num_feedbacks),
+              'pop': len(alg.population) if self.cfg.evo else 0}
     res = pg.poll_result(self.name)
     text = str(res)
     def frac(key):
@@ -264,7 +312,12 @@ class Session:
         final = self.observe_final()
       except Exception as e:  # pylint: disable=broad-except
         final = {'error': f'{type(e).__name__}: {e}'}
-    return RunResult(self.cfg, self.name, status, self.rec.normalise(s.events), final, s.violation,
+    codes = self.cfg.group_codes()
+    gs = {}
+    for w in range(1, self.cfg.nw + 1):
+      g = self.cfg.groups[w - 1]
+      gs[w] = (str(self.idents.get(w)) if g is None else str(g), codes[w - 1])
+    return RunResult(self.cfg, self.label, status, self.rec.normalise(s.events, gs, self.name is not None), final, s.violation,
                      {'events': len(s.events), 'yields': s.yields, 'probes': s.probes,
                       'probes_blocked': s.probes_blocked, 'tokenless': s.tokenless,
                       'unexpected_blocks': s.unexpected_blocks}, dict(s.crash))
@@ -284,7 +337,8 @@ def run_scheduled(cfg: RunConfig, quiet: float = 0.01) -> RunResult:
   """One execution under a seeded policy."""
   rng = random.Random(f'{cfg.seed}/sched')
   with Session(cfg, quiet) as ses:
-    horizon = 40 * cfg.n * cfg.nw if cfg.mode == 'hook' else 600 * cfg.n
+    n = 4 if cfg.n is None else max(cfg.n, 1)
+    horizon = 40 * n * cfg.nw if cfg.mode == 'hook' else 600 * n
     policy = sched.make_policy(cfg.policy, rng, cfg.nw, horizon)
     status = sched.run_random(ses.s, ses.fns(), policy, rng, probe_p=cfg.probe_p,
                               serial_until=constructor_done if cfg.serial_start else None)
